@@ -9,7 +9,7 @@ CLAIMED = {
  "C02": ("proof", "loop contract on the real splint (bracket invariant, decreases) + UF-leaf value lemmas for the 12 call sites",
          "splint: failure <=> outside [first knot, last knot + 1e-7], all reads in bounds for every n, termination, adjacent bracketing interval; each interpolated quantity = post(splint(its own table triple, N, pre(arg))), incl. the Kissel log-log extension",
          "the cubic formula itself and knot-exactness are float identities over mult/div: not decided; 1e-7 guard band stated; A-gen; known finding: one unsorted knot in data/CS_Photo.dat (Z=96)"),
- "C03": ("proof", "K1 protocol contracts (setter contract requires an empty slot at every call site) + protocol halves of the K2 value lemmas + real error-object code + two-run no-slot lemmas",
+ "C03": ("proof", "K1 protocol contracts (setter contract requires an empty slot at every call site) + protocol halves of the K2 value lemmas (incl. the diffraction lemmas of C13) + real error-object code + two-run no-slot lemmas",
          "error iff failure, exactly one error, never over an existing one, no slot changes nothing but reporting - for every function under contract (scalar accessors, closed-form functions, aggregates, unit variants, differential and fluorescence functions)",
          "finiteness of exp/asin results not decided (A-libm); A-underflow; functions outside the contract set (parser scanner, crystal code, catalogue lookups) are not covered here"),
  "C04": ("proof", "CBMC built-in safety obligations on every K1/K2 group, splint loop contract for all n, plain-mode safety lemmas for the 11 interpolating call sites under TABLES_WF, leak checks (error objects, _CP/refractive temporaries)",
